@@ -36,3 +36,26 @@ func lemmaTableRenameKeepsI1(oldpath, newpath string) {
 func lemmaCommitKeepsI1(lock, list string, a, b, k int) {
 	os.Rename(lock, list)
 }
+
+// lemmaVarIntRoundTrip (C01, layer 1): decoding what putVarInt wrote yields the value and the length, for every value.
+func lemmaVarIntRoundTrip(x uint64, buf []byte) {
+	n, ok := putVarInt(buf, x)
+	if !ok {
+		return
+	}
+	v, m := getVarInt(buf[:n])
+	vAssert(m == n, "decoded length is the encoded length")
+	vAssert(v == x, "decoded value is the encoded value")
+}
+
+// lemmaKeyRoundTrip (C01, layer 2): decodeKey accepts what encodeKey wrote against the same previous key, consumes
+// exactly the bytes written and returns the key (character by character) and the 3-bit value type.
+// The index i is a lemma parameter: the contract's clauses about position i hold for every i.
+func lemmaKeyRoundTrip(buf []byte, prevKey, key string, extra uint8, i int) (k2 string, v2 uint8, fits bool, accepted bool) {
+	n, _, fits := encodeKey(buf, prevKey, key, extra)
+	if !fits {
+		return "", 0, false, false
+	}
+	m, k2, v2, ok := decodeKey(buf[:n], prevKey)
+	return k2, v2, true, ok && m == n
+}
